@@ -586,6 +586,10 @@ func newCtx(files []fileSpec, target int) (*parsley.Context, *text.File) {
 		if i == target {
 			tf = tfile
 		}
+		// a file set GROWS while it is in use (a message about the file that is last so far is rendered, then the next
+		// file is added): a lookup between two AddFile calls must not change what any later lookup answers
+		fset.Position(parsley.Pos(offs[i] + lens[i]))
+		fset.Position(parsley.Pos(offs[i]))
 	}
 	// the file set has been ASKED before, as it is in any multi-file use: a position in every file, the last question in
 	// the file just before the target (a position cache inside the file set must not change any later answer)
